@@ -174,6 +174,9 @@ def run_c15(ctx):
             ctx.stats["op-new_session"] += 1
             continue
         n = t.int_between(1, 5, "n")
+        if op == "crop" and t.flag(1, 4, "many-samples"):
+            # enough rows for two-digit batch numbers (file names sort 1, 10, 11, 2, ...)
+            n = t.int_between(6, 14, "n-large")
         seed = t.choose(1000, "np-seed")
         override = None
         allowed_now = dict(allowed)
